@@ -202,7 +202,7 @@ _rule = st.sampled_from([
     (r'^a@example\.com$', 'aa@forward.net'), (r'@example\.com$', '@example.org'), (r'^bob@', 'robert@'),
     (r'example', 'sample'), (r'^(.*)@z\.net$', r'\1@zz.net'), (r'^nomatch$', 'x'), (r'^alice@.*$', ''),
     (r'(?i)@EXAMPLE\.COM$', '@lower.example'), (r'^root$', 'root@localhost'), (r'^.*$', 'catchall@example.com'),
-    (r'b', 'B'), (r'@$', '@fixed.example'),
+    (r'b', 'B'), (r'@$', '@fixed.example'), (r'^', 'archive+'), (r'$', '.suffix'), (r'x*$', '-'), (r'^bob@.*$', ''), (r'^.*@example\.org$', ''),
 ])
 _policy = st.one_of(
     st.sampled_from([('split',), ('domsplit',), ('date',), ('msgid',), ('received',), ('keepfirst',)]),
